@@ -155,7 +155,7 @@ func TestVerifC13Pub(t *testing.T) {
 		last := "none"
 		pubs := map[int]*Publisher{}
 		running := map[int]bool{}
-		const wait = 10 * time.Second
+		wait := 10 * time.Second // after the first timeout of the section (already a violation) the waits are short
 		observe := func(timeout bool) string {
 			var ls []string
 			ids := make([]int, 0, len(pubs))
@@ -262,6 +262,9 @@ func TestVerifC13Pub(t *testing.T) {
 				}
 			default:
 				return "bad-op"
+			}
+			if !ok {
+				wait = 200 * time.Millisecond
 			}
 			if ok {
 				// a registration that comes late (a publisher that registers once more than it should) would still be running
